@@ -88,6 +88,14 @@ func runC03(r *Run, replay *Case) {
 			r.Add(c03TruthyCase(fromVal(replay.Input["v"].(map[string]any))))
 			return
 		}
+		if replay.Input["stream"] == "pathcond" {
+			for _, sh := range c03PathShapes() {
+				if sh.name == replay.Input["shape"] {
+					r.Add(c03PathCase(sh, replay.Input["a"] == true, replay.Input["b"] == true))
+				}
+			}
+			return
+		}
 		c03ReplayChain(r, replay)
 		return
 	}
@@ -97,4 +105,5 @@ func runC03(r *Run, replay *Case) {
 		r.Add(c03TruthyCase(v))
 	}
 	c03Chains(r)
+	c03PathConds(r)
 }
